@@ -6,6 +6,7 @@ import (
 	"fmt"
 	"math"
 	"os"
+	"os/exec"
 	"path/filepath"
 	"regexp"
 	"sort"
@@ -197,7 +198,52 @@ func contextRun(args []string) int {
 			os.RemoveAll(d)
 		}
 	}
+	// the command line derives its context from the directory it runs in - whatever the environment says (a launcher that
+	// sets the working directory need not rewrite PWD)
+	ncli := 0
+	if wtf := os.Getenv("VERIF_WTF"); wtf != "" {
+		dirs := map[string][]string{"goproject": {"go.mod", "Makefile"}, "empty": {}, "node": {"package.json"}}
+		paths := map[string]string{}
+		for name, files := range dirs {
+			d := filepath.Join(base, "cli-"+name)
+			os.MkdirAll(d, 0o755)
+			for _, f := range files {
+				os.WriteFile(filepath.Join(d, f), []byte("{}\n"), 0o644)
+			}
+			paths[name] = d
+		}
+		home := filepath.Join(base, "cli-home")
+		os.MkdirAll(home, 0o755)
+		dbf := filepath.Join(repoPath(), "assets", "commands.yml")
+		reCtx := regexp.MustCompile(`(?m)^Context detected: (.*)$`)
+		for _, name := range []string{"goproject", "empty", "node"} {
+			for _, pwd := range []string{"same", "goproject", "empty", "node", "unset"} {
+				env := []string{"HOME=" + home, "XDG_CONFIG_HOME=" + filepath.Join(home, ".config"), "PATH=/usr/bin:/bin", "NO_COLOR=1"}
+				switch pwd {
+				case "same":
+					env = append(env, "PWD="+paths[name])
+				case "unset":
+				default:
+					env = append(env, "PWD="+paths[pwd])
+				}
+				cmd := exec.Command(wtf, "search", "--database", dbf, "-v", "--", "list", "files")
+				cmd.Dir, cmd.Env = paths[name], env
+				out, _ := cmd.CombinedOutput()
+				got := ""
+				if m := reCtx.FindStringSubmatch(string(out)); m != nil {
+					got = m[1]
+				}
+				want := ""
+				if c, err := wtfctx.NewAnalyzer().AnalyzeDirectory(paths[name]); err == nil && c != nil {
+					want = c.GetContextDescription()
+				}
+				tr++
+				ncli++
+				w.emit(map[string]interface{}{"op": "ctxcli", "tr": tr, "dir": name, "pwd": pwd, "same": got == want, "got": got, "want": want})
+			}
+		}
+	}
 	w.close()
-	fmt.Printf("{\"directories\": %d, \"marker_names\": %d}\n", tr, nlit)
+	fmt.Printf("{\"directories\": %d, \"marker_names\": %d, \"cli_runs\": %d}\n", tr, nlit, ncli)
 	return 0
 }
